@@ -87,9 +87,43 @@ class Desugar(ast.NodeTransformer):
             cnt[a.arg] = cnt.get(a.arg, 0) + 1
         self.outside = cnt
         self._parts_lists(n)
+        self._inline_tables(n)
         self.generic_visit(n)
         self.outside, self.k = saved
         return n
+
+    @staticmethod
+    def _inline_tables(fn):
+        """`rows = ((a, 4), (b, 5)); for v, w in rows: ...` -- a local bound once to a literal sequence of call-free rows and used
+        only as the iterable of one loop: the literal is written into the loop header (where the unrolling rule sees it)"""
+        import copy
+        assigns, loads, fors = {}, {}, {}
+        for x in ast.walk(fn):
+            if isinstance(x, ast.Assign) and len(x.targets) == 1 and isinstance(x.targets[0], ast.Name):
+                assigns.setdefault(x.targets[0].id, []).append(x)
+            elif isinstance(x, ast.Name) and isinstance(x.ctx, ast.Load):
+                loads[x.id] = loads.get(x.id, 0) + 1
+            if isinstance(x, ast.For) and isinstance(x.iter, ast.Name):
+                fors.setdefault(x.iter.id, []).append(x)
+        stores = {}
+        for x in ast.walk(fn):
+            if isinstance(x, ast.Name) and isinstance(x.ctx, (ast.Store, ast.Del)):
+                stores[x.id] = stores.get(x.id, 0) + 1
+        for nm, fs in fors.items():
+            a = assigns.get(nm, [])
+            if len(a) != 1 or len(fs) != 1 or loads.get(nm, 0) != 1 or stores.get(nm, 0) != 1:
+                continue
+            v = a[0].value
+            if not isinstance(v, (ast.Tuple, ast.List)) or not (1 <= len(v.elts) <= 8):
+                continue
+            if any(isinstance(e, ast.Starred) or any(isinstance(y, (ast.Call, ast.Await, ast.NamedExpr)) for y in ast.walk(e)) for e in v.elts):
+                continue
+            # nothing the rows mention may be rebound between the assignment and the loop: require that they are never stored in this function
+            row_names = {y.id for e in v.elts for y in ast.walk(e) if isinstance(y, ast.Name)}
+            if any(stores.get(r, 0) for r in row_names if r not in ("self",)):
+                continue
+            fs[0].iter = ast.copy_location(copy.deepcopy(v), fs[0].iter)
+            ast.fix_missing_locations(fs[0])
 
     def _parts_lists(self, fn):
         """`parts = [a, b]; parts.append(c); parts.extend(E for v in it); return b"".join(parts)` is the accumulator
